@@ -1,5 +1,5 @@
 #!/usr/bin/env python3
-"""Round 3: builds /verif/seeded/<ID>-r8-<n>/ from /tmp/seed8-<ID>/, the first evaluation with the framework as it
+"""Round 8: builds /verif/seeded/<ID>-r8-<n>/ from /tmp/seed8-<ID>/, the first evaluation with the framework as it
 was when round 2 was written (/tmp/mut/results2) and, for the changes that evaluation missed, the re-evaluation after
 strengthening (/tmp/mut/results2b)."""
 import json, os, glob, shutil, re
@@ -11,7 +11,10 @@ for f in sorted(glob.glob("/tmp/mut/results8/C*-*.json")):
     first = json.load(open(f))
     fb = f"/tmp/mut/results8b/{tag}.json"
     final = json.load(open(fb)) if os.path.exists(fb) else first
-    r = final
+    r = dict(final)
+    for k in ("baseline_with_patch", "demo_clean_passes", "demo_patched_fails", "touched"):
+        if r.get(k) is None:
+            r[k] = first.get(k)
     src = f"/tmp/seed8-{pid}"
     confirmed = r.get("applies") and r.get("baseline_with_patch", {}).get("ok") and r.get("demo_clean_passes") and r.get("demo_patched_fails")
     if not confirmed:
